@@ -77,7 +77,7 @@ fn main() {
         "MODEL" => vec![("model", model::run_differential)],
         "GEN" => vec![("gen", gen::run)],
         "C13" => vec![("c13", c13::run), ("model", model::run_differential)],
-        "C15" => vec![("c15", c15::run), ("c15-names", c15::inspection_named_like_a_step), ("c02", c02::run), ("gen", gen::run)],
+        "C15" => vec![("c15", c15::run), ("c15-names", c15::inspection_named_like_a_step), ("c02", c02::run), ("c06", c01::run_c06), ("gen", gen::run)],
         _ => vec![],
     };
     for (name, f) in groups {
